@@ -1,0 +1,27 @@
+//go:build verif
+
+// Code added for /verif runtime monitors: exposes the internal tower types and package-level functions.
+// Compiled only with -tags verif; adds no behaviour.
+
+package bn254
+
+import "github.com/consensys/gnark-crypto/ecc/bn254/internal/fptower"
+
+// VerifTowerTypes returns one zero value (by pointer) of every exported tower type.
+func VerifTowerTypes() []any {
+	return []any{new(fptower.E12), new(fptower.E2), new(fptower.E6)}
+}
+
+// VerifTowerFuncs returns the exported package-level functions of internal/fptower by name.
+func VerifTowerFuncs() map[string]any {
+	return map[string]any{
+		"BatchCompressTorus":      fptower.BatchCompressTorus,
+		"BatchDecompressKarabina": fptower.BatchDecompressKarabina,
+		"BatchDecompressTorus":    fptower.BatchDecompressTorus,
+		"BatchInvertE12":          fptower.BatchInvertE12,
+		"BatchInvertE2":           fptower.BatchInvertE2,
+		"BatchInvertE6":           fptower.BatchInvertE6,
+		"Mul034By034":             fptower.Mul034By034,
+		"Mul34By34":               fptower.Mul34By34,
+	}
+}
